@@ -1,10 +1,10 @@
 CONSTANTS
-  Reqs = {1, 2, 3}
-  Keys = {1, 2}
-  KeyOf <- KeyOfSplit
+  Reqs = {1, 2}
+  Keys = {1}
+  KeyOf <- KeyOfSame
   Internal = {}
-  Probe = {1}
-  MaxGen = 3
+  Probe = {}
+  MaxGen = 2
   MaxRegroups = 1
   D = 2
   W = 3
@@ -16,7 +16,7 @@ CONSTANTS
   WriterGuard = TRUE
   Defensive = FALSE
   EnvOn = TRUE
-  Bug = "none"
+  Bug = "recordLocal"
 SPECIFICATION Spec
 INVARIANTS TypeOK AtMostOneReply ExactlyOneWhenFinished OneLeaderPerGeneration FollowersNeverDone
   TimedOutGenerationIsTombstone FailureIsPrivate InternalSkipsJoin RegroupBound Quiescent 
